@@ -48,7 +48,7 @@ add("C18", "white-box invariant checking of the compiler's DataLayout over gener
 
 add("C14", "metamorphic repetition testing: generated multi-module projects compiled K times by the real CLI under generated GOMAXPROCS/hook schedules; outputs compared byte for byte",
     "Generated projects (2-6 modules, imported by main directly or only through another module, built from templates that stress literal IDs, data emission and multi-diagnostic output, one third with injected errors incl. same-line ties and lexer/parser errors in sibling modules) are compiled 4 (thorough 8) times as fresh processes under different GOMAXPROCS values and module-level schedules imposed through the verif hook; exit status, full compiler output and the generated QBE IL per module / the .wasm binary must be identical. Exploration: schedules and Go map order are sampled, not enumerated.",
-    "Go map iteration order can only be resampled; interleavings finer than module granularity are reached only by repetition. Assembler/linker are replaced by /bin/true for the native target (only the IL is compared). One recorded finding (schedule-dependent circular-import diagnostic) is excluded by construction.",
+    "Go map iteration order can only be resampled; interleavings finer than module granularity are reached only by repetition. Assembler/linker are replaced by /bin/true for the native target (only the IL is compared). Import cycles and a missing module with two importers are part of the generated projects (both were schedule-dependent on the original tree and have been repaired).",
     "DESIGN.md §4 C14")
 
 add("C01", "differential testing of generated programs against a reference interpreter (rapid type-directed program generator, math/big interpreter)",
@@ -62,7 +62,7 @@ add("C02", "differential testing of the two back ends on generated programs (rap
     "DESIGN.md §4 C02")
 
 add("C04", "differential testing against a reference interpreter on generated fixed-array indexing programs (rapid)",
-    "Generated programs index one fixed array through literals, consts, lets (reassigned before/after/in a branch), arithmetic, loop variables and parameters, for reads, writes and compound writes, with copies in between and canary variables around the array. A compile-time rejection is allowed; an accepted program must print exactly what the reference interpreter (which knows each index value at the moment of execution) prints, and must panic exactly when an index leaves [-N, N). Exploration.",
+    "Generated programs index one fixed array through literals, consts, lets (reassigned before/after/in a branch), arithmetic, loop variables and parameters, and inside function literals through captured variables of every integer width that are reassigned later (also to values 2^31 / 2^32 away or in the all-ones region), for reads, writes and compound writes, with copies in between and canary variables around the array. A compile-time rejection is allowed; an accepted program must print exactly what the reference interpreter (which knows each index value at the moment of execution) prints, and must panic exactly when an index leaves [-N, N). Exploration.",
     "Trusts the reference interpreter. Overwriting unrelated memory is observed only through the dumped array, its copies and two canary variables.",
     "DESIGN.md §4 C04")
 add("C08", "model-based testing of generated indexing histories over dynamic arrays and strings against an abstract list (rapid + reference interpreter)",
